@@ -101,31 +101,28 @@ class FMMULock:
     def __init__(self, filename):
         self.filename = filename
         os.makedirs(filename.rsplit('/', 1)[0], exist_ok=True)
+        # create and initialise under the lock: a second process must never
+        # see (or overwrite) a half-initialised map
+        self.fd = os.open(self.filename,
+                          os.O_CREAT | os.O_RDWR | os.O_CLOEXEC)
+        fcntl.lockf(self.fd, fcntl.LOCK_EX)
         try:
-            self.fd = os.open(self.filename, os.O_CREAT | os.O_RDWR
-                                             | os.O_EXCL | os.O_CLOEXEC)
-        except FileExistsError:
-            self.fd = os.open(self.filename, os.O_RDWR | os.O_CLOEXEC)
-            fcntl.lockf(self.fd, fcntl.LOCK_EX)
-            try:
-                addrmap = os.pread(self.fd, 1 << 6, 0)
-                if len(addrmap) != (1 << 6):
+            addrmap = os.pread(self.fd, 1 << 6, 0)
+            if len(addrmap) != (1 << 6):
+                if addrmap:
                     logging.warn('found wrong fmmu map, ignoring')
-                    addrmap = b'\0' * (1 << 6)
-                    os.pwrite(self.fd, addrmap, 0)
-                    os.ftruncate(self.fd, 1 << 6)
+                addrmap = b'\0' * (1 << 6)
+                os.pwrite(self.fd, addrmap, 0)
+                os.ftruncate(self.fd, 1 << 6)
+            addr = randrange(1, 1 << 9)
+            while addrmap[addr // 8] & (1 << (addr % 8)):
                 addr = randrange(1, 1 << 9)
-                while addrmap[addr // 8] & (1 << (addr % 8)):
-                    addr = randrange(1, 1 << 9)
-                out = bytes([addrmap[addr // 8] | (1 << (addr % 8))])
-                no = os.pwrite(self.fd, out, addr // 8)
-                assert no == 1
-                self.base_addr = addr << (12 + 10)
-            finally:
-                fcntl.lockf(self.fd, fcntl.LOCK_UN)
-        else:
-            os.write(self.fd, b'\2' + b'\0' * 63)
-            self.base_addr = 1 << (12 + 10)
+            out = bytes([addrmap[addr // 8] | (1 << (addr % 8))])
+            no = os.pwrite(self.fd, out, addr // 8)
+            assert no == 1
+            self.base_addr = addr << (12 + 10)
+        finally:
+            fcntl.lockf(self.fd, fcntl.LOCK_UN)
 
     def get_next_addr(self):
         self.base_addr += 1 << 12
